@@ -142,8 +142,10 @@ def do_default_tracer(case, ob, site):
              and not isinstance(w, pyrtl.Const)}
     io = {w.name for w in block.wirevector_subset((pyrtl.Input, pyrtl.Output))}
     decoy = _decoy_block()
+    from .. import spec
+    assume = [z3.Not(d) for d in spec.run(block, K, v, reg_init='reset', mem_init='default').double_write]
     with sym_env([block]):
-        ref = run_sim(block, K, v, kind='sim', reg_init='reset', mem_init='default', track='all')
+        ref = run_sim(block, K, v, kind='sim', reg_init='reset', mem_init='default', track='all', assumptions=assume)
 
     def inputs(t):
         return {w.name: SymInt.mk(v.inp(w.name, t, w.bitwidth), False) for w in block.wirevector_subset(pyrtl.Input)}
@@ -166,10 +168,10 @@ def do_default_tracer(case, ob, site):
                     sim.step(inputs(t))
             return {n: list(sim.tracer.trace[n]) for n in sim.tracer.trace}
     if kind == 'compiled':
-        paths = explore(run)
+        paths = explore(run, assumptions=assume)
     else:
         with sym_env([block]):
-            paths = explore(run)
+            paths = explore(run, assumptions=assume)
     ob.paths += len(paths) + len(ref)
     for p in paths:
         if p.exc is not None:
@@ -192,7 +194,7 @@ def do_default_tracer(case, ob, site):
                 for t in range(min(K, len(got[n]))):
                     goals.append(('default-trace:%s@%d' % (n, t), to_bv(got[n][t], w.bitwidth + 1) == to_bv(r.trace[n][t], w.bitwidth + 1),
                                   site + ':value'))
-            ob.prove_all(goals, list(p.pc) + list(r.pc), v, vacuity=False)
+            ob.prove_all(goals, assume + list(p.pc) + list(r.pc), v, vacuity=False)
 
 
 PH = re.compile(r'<<\d+(?::[a-z])?>>')
